@@ -39,12 +39,13 @@ LEVEL_TEXT = (
     "unbounded ints, floor division) whenever that value fits 64 bits; `%` and other operators are rejected with a diagnostic; each of the six "
     "comparison operators is lowered to the CJump condition with the same truth value for all ints; (b) for ALL integer expression trees over "
     "literals, locals, + - * //: the emitted straight-line code computes CPython's value when every intermediate value fits 64 bits (induction); "
-    "(c) block structure, for ALL statement trees (if/while/for/break/continue/return/assignments, arbitrarily nested): every jump emitted "
+    "for ALL trees of comparisons joined by and/or: following the emitted conditional jumps, control enters yes_block iff CPython's short-circuit "
+    "evaluation is true (operands CPython skips are not executed); (c) block structure, for ALL statement trees (if/while/for/break/continue/return/assignments, arbitrarily nested): every jump emitted "
     "targets an existing block; the only predecessors of a for-loop's test block are the block in front of the loop and the loop's increment "
     "block, in the order of the phi inputs (phi inputs = predecessors); the increment block holds exactly `i+1` feeding the phi and is the "
     "`continue` target while the body is generated. PARTIAL: `/` on two ints is lowered to the truncating integer division (CPython: float) - "
-    "open finding, theorem only for exact quotients; statement *semantics* (that the generated control flow computes what the Python program "
-    "computes), floats, calls are not proved, only searched by differential execution against CPython."
+    "open finding, theorem only for exact quotients; statement *semantics* (that the generated if/while/for control flow and the stores/loads of "
+    "locals compute what the Python program computes), floats, calls are not proved, only searched by differential execution against CPython."
 )
 LEVEL_NOTE = (
     "trusted: Lean kernel; axioms propext/Classical.choice/Quot.sound; Spec.Py (Python int semantics, written from the language reference, "
@@ -1044,7 +1045,7 @@ def operand_pairs(ctx):
     if not ctx.thorough:
         base = [0, 1, -1, 2, -3, 7, -7, (1 << 31), -(1 << 53) - 1, 1 << 62, I64_MAX, I64_MIN]
     pairs = [(a, b) for a in base for b in base]
-    for _ in range(3000 if ctx.thorough else 120):
+    for _ in range(3000 if ctx.thorough else 60):
         ba, bb = r.choice([4, 8, 16, 32, 63]), r.choice([2, 4, 8, 16, 32, 63])
         pairs.append((r.randint(-(1 << ba), 1 << ba), r.randint(-(1 << bb), 1 << bb)))
     pairs = [(7, 2), (-7, 2), (7, -2), (-7, -2), (6, 3), (-6, 3), (0, 5), (0, -5)] + pairs
@@ -1104,7 +1105,7 @@ def check_operators(ctx, batch):
                 if bad:
                     sig = "binop:Div:int-operands-truncating-division" if op == "Div" else f"binop:{op}:wrong-value"
                     fail(sig, f"{a} {OPSYM[op]} {b}: CPython {want!r}, compiled code {got}", {"op": op, "a": a, "b": b}, got=got, want=repr(want))
-                if k < 60 or k % 23 == 0:
+                if k < (60 if ctx.thorough else 30) or k % 23 == 0:
                     ir_lines.append(f"run f 100 {a} {b}"); ir_meta.append((op, a, b, want))
     def on_c36(rep):
         for line, (kind, op, ab, val), r in zip(lines, meta, rep):
